@@ -35,7 +35,7 @@ from .c09 import _paths as model_paths
 PROP = "C13"
 LEVEL = "fault_enumeration"
 RUNS = {"quick": 800, "thorough": 30000}
-TIME_CAP = {"quick": 400, "thorough": 1500}
+TIME_CAP = {"quick": 400, "thorough": 900}
 CHUNK = 4          # runs per worker task (cost-aware: keeps the time cap responsive)
 RULE = ("(i) random and structured-random byte strings of lengths {0,1,139,202,8192,24574,1e5,3e6}; (ii) generated AKAI / Roland / CDDA images "
         "with 1-4 faults: targeted rot of SAT/FAT words (free, end, reserved, error, in-range link incl. self/cycle, out of range), partition "
